@@ -630,6 +630,8 @@ func replay(t *testing.T, tr *vhlib.Trace, ops []vhlib.ParsedLine) {
 			w.doMutate(op.Int("b"), op.Int("to"))
 		case "sync":
 			w.doSync()
+		case "syncrace":
+			w.doSyncRace(v, op.Int("r"), op.Int("tries"))
 		case "cache":
 			w.doCache(op.Int("n"))
 		case "crash":
